@@ -158,4 +158,23 @@ TokenUint(lit) ==
     THEN LET mag == MagOf(lit) IN
          [v |-> SatUint(FALSE, mag), err |-> IF InRange(FALSE, mag, 64, FALSE) THEN "nil" ELSE "range"]
     ELSE LET nf == Normal(lit) IN [v |-> SatUint(nf.neg \/ lit[1] = 45, TruncMag(nf)), err |-> "syntax"]
+
+(***************************************************************************)
+(* Token.Int / Token.Uint on a token constructed from a Go number          *)
+(* (Int, Uint, Float, Float32): the classification follows the value, not  *)
+(* a spelling: a value with a fractional part is a syntax error            *)
+(* (truncated), an integral value outside the range a range error          *)
+(* (saturated); any negative value, also -0, is a syntax error for Uint.   *)
+(***************************************************************************)
+Integral(nf) == nf.d = <<>> \/ nf.n >= Len(nf.d)
+
+ValueInt(nf) ==
+    LET mag == TruncMag(nf) IN
+    [v |-> SatInt(nf.neg, mag),
+     err |-> IF ~Integral(nf) THEN "syntax" ELSE IF InRange(nf.neg /\ nf.d # <<>>, mag, 64, TRUE) THEN "nil" ELSE "range"]
+
+ValueUint(nf) ==
+    LET mag == TruncMag(nf) IN
+    [v |-> SatUint(nf.neg, mag),
+     err |-> IF ~Integral(nf) \/ nf.neg THEN "syntax" ELSE IF InRange(FALSE, mag, 64, FALSE) THEN "nil" ELSE "range"]
 =============================================================================
